@@ -367,7 +367,7 @@ struct Harness {
         f.wrong_dim = true;
       } else if (op.name == "merge") {
         int b = static_cast<int>(op.uarg(1) % (NSLOT + 1));
-        int mode = static_cast<int>(op.uarg(2) % 3);  // 0 const&, 1 rvalue (source slot is rebuilt afterwards), 2 const& of a copy
+        int mode = static_cast<int>(op.uarg(2) % 4);  // 0 const&, 1 rvalue (source slot is rebuilt afterwards), 2 const& of a copy, 3 non-const lvalue (source must stay intact: it is checked afterwards like every touched slot)
         Slot& src = slots[b];
         if (s.inputs.size() + src.inputs.size() > CAP) continue;
         const uint64_t n_before = s.n, n_src = src.n;
@@ -378,6 +378,7 @@ struct Harness {
         try {
           if (b == a || mode == 2) { Sk cp(*src.sk); s.sk->merge(static_cast<const Sk&>(cp)); if (b == a) f.merge_self = true; }
           else if (mode == 1 && b != ALIEN) { s.sk->merge(std::move(*src.sk)); fresh(src); f.merge_move = true; }
+          else if (mode == 3) { s.sk->merge(*src.sk); vf::label("merge-nonconst-lvalue"); }
           else s.sk->merge(static_cast<const Sk&>(*src.sk));
         } catch (const std::invalid_argument&) { threw = true; }
         if (b == ALIEN) {
@@ -520,8 +521,8 @@ rc::Gen<Case> gen_main() {
       {5, op4("bulk", slot, rc::gen::withSize([](int s) { return range(1, 12 + 4 * s); }), patgen(), sd)},
       {2, op4("bulk", slot, range(1, 40), patgen(), sd)},
       {2, op3("wrong", slot, range(-3, 3), sd)},
-      {5, op3("merge", slot, slot, range(0, 2))},
-      {1, op3("merge", slot, pick({4}), range(0, 2))},
+      {5, op3("merge", slot, slot, range(0, 3))},
+      {1, op3("merge", slot, pick({4}), range(0, 3))},
       {1, op3("alien", pick({0}), range(0, 39), sd)},
       {1, op2("copy", slot, range(0, 1))},
       {4, op3("query", slot, range(0, 6), sd)},
@@ -545,7 +546,7 @@ rc::Gen<Case> gen_deep() {
   auto opg = choose({
       {6, op4("bulk", slot, range(100, 999), pick({0, 1, 1, 5}), sd)},
       {2, op3("upd", slot, pick({0, 1, 2, 5}), sd)},
-      {4, op3("merge", slot, slot, range(0, 2))},
+      {4, op3("merge", slot, slot, range(0, 3))},
       {2, op3("query", slot, range(0, 6), sd)},
   });
   return make_case({{"ty", range(0, 1)},
